@@ -122,9 +122,36 @@ def range_validator(ctx, res: Result, fi: FuncInfo, term_src: str, lo, hi, rule=
     norm = norm or Normaliser(lambda e: repr(e.value) if isinstance(e, ast.Constant) else None)
     facts = facts_at_end(fi.node, norm)
     term = norm.term(ast.parse(term_src, mode="eval").body)
-    ok, why = unit_range(facts, term, lo if isinstance(lo, str) else repr(lo), hi if isinstance(hi, str) else repr(hi), lo_strict, hi_strict)
+    los, his = (lo if isinstance(lo, str) else repr(lo)), (hi if isinstance(hi, str) else repr(hi))
+    # the value that is range-checked may be the term itself or a local derived from it in one assignment
+    # (`value = loss.get() if isinstance(loss, Parameter) else loss`)
+    cands = [term]
+    base_names = {x.id for x in ast.walk(ast.parse(term_src, mode="eval")) if isinstance(x, ast.Name)} - {"self"}
+    if base_names:
+        defs = {}
+        for a_ in walk_no_nested(fi.node):
+            if isinstance(a_, ast.Assign) and len(a_.targets) == 1 and isinstance(a_.targets[0], ast.Name):
+                defs.setdefault(a_.targets[0].id, []).append(a_.value)
+        for nm, vs in defs.items():
+            if nm not in base_names and len(vs) == 1 and base_names & {x.id for x in ast.walk(vs[0]) if isinstance(x, ast.Name)}:
+                cands.append(nm)
+    results = [(c, *unit_range(facts, c, los, his, lo_strict, hi_strict)) for c in cands]
     rng = f"{'(' if lo_strict else '['}{lo}, {hi}{')' if hi_strict else ']'}"
     inst = label or f"{fi.qualname}:{term_src}"
-    res.add(ok, rule, inst, fi.site(), fi.qualname, f"accepted set of {term_src} is exactly {rng}",
-            f"validator does not accept exactly {rng} for {term_src}: {why}; established: " + "; ".join(" or ".join(sorted(map(str, f))) for f in facts[:8]),
+    good = [r for r in results if r[1]]
+    def ordered(c):
+        return any(len(f) == 1 and c in (next(iter(f)).a, next(iter(f)).b) and next(iter(f)).op in ("<", "<=", ">", ">=") for f in facts)
+    if good:
+        res.ok(rule, inst, fi.site(), fi.qualname, f"accepted set of {term_src} is exactly {rng}" + (f" (checked on `{good[0][0]}`)" if good[0][0] != term else ""))
+        return
+    decided = [r for r in results if ordered(r[0])]
+    range_lits = [l for f in facts for l in f if l.op in ("<", "<=", ">", ">=") and ({l.a, l.b} & {los, his})]
+    if not decided and range_lits:
+        # a range comparison exists but it does not bound the term on every path (conditional / on another value)
+        decided = [results[0]]
+    if not decided:
+        res.frozen(False, rule, inst, fi.site(), fi.qualname, "", f"no ordering comparison on {term_src} (or a local derived from it) recognised; established: " + "; ".join(" or ".join(sorted(map(str, f))) for f in facts[:8]), construct=f"{fi.qualname} range {term_src}")
+        return
+    why = decided[0][2]
+    res.bad(rule, inst, fi.site(), fi.qualname, f"validator does not accept exactly {rng} for {term_src}: {why}; established: " + "; ".join(" or ".join(sorted(map(str, f))) for f in facts[:8]),
             construct=f"{fi.qualname} range {term_src}")
